@@ -25,10 +25,11 @@ const (
 )
 
 type Def struct {
-	Rhs  ast.Expr // defining expression (for range: the ranged expression)
-	Idx  int      // tuple index of a multi-value call, -1 otherwise
-	Kind DefKind
-	Env  *Env // environment at the definition (to resolve Rhs further)
+	Rhs   ast.Expr // defining expression (for range: the ranged expression)
+	Idx   int      // tuple index of a multi-value call, -1 otherwise
+	Kind  DefKind
+	Env   *Env // environment at the definition (to resolve Rhs further)
+	Param bool // binding of a parameter of an extracted-block helper to the argument at its sole call site
 }
 
 type Env struct {
@@ -82,6 +83,8 @@ type walkResult struct {
 	deferred    map[ast.Node]bool // call nodes that are deferred
 	inGo        map[ast.Node]bool
 	exits       []exitPoint
+	inherited   int        // number of Done entries inherited from the sole call site (extracted-block helper)
+	mustDone    []ast.Node // calls executed on every returning path (beyond the inherited ones)
 	assignCount map[types.Object]int
 	endOf       map[ast.Node]*State // state at the fall-through end of an if/else/loop body block
 }
@@ -107,6 +110,19 @@ func (p *Prog) Walk(fn *Func) *walkResult {
 	if r, ok := p.walks[fn]; ok {
 		return r
 	}
+	if p.inWalk == nil {
+		p.inWalk = map[*Func]bool{}
+	}
+	hs := p.HelperSite(fn)
+	if hs != nil && !p.inWalk[hs.Caller] {
+		// walk the caller first: it walks this helper in context when it reaches the call
+		p.Walk(hs.Caller)
+		if r, ok := p.walks[fn]; ok {
+			return r
+		}
+	}
+	p.inWalk[fn] = true
+	defer delete(p.inWalk, fn)
 	w := &walker{p: p, fn: fn, res: &walkResult{at: map[ast.Node]*State{}, deferred: map[ast.Node]bool{}, inGo: map[ast.Node]bool{}, endOf: map[ast.Node]*State{}},
 		nassign: map[types.Object]int{}, addrOf: map[types.Object]bool{}}
 	p.walks[fn] = w.res
@@ -162,17 +178,63 @@ func (p *Prog) Walk(fn *Func) *walkResult {
 		return true
 	})
 	st := &State{Env: &Env{m: map[types.Object]*Def{}}}
+	if hs != nil {
+		if cr := p.walks[hs.Caller]; cr != nil {
+			if cst := cr.at[hs.Call]; cst != nil && !cst.Dead {
+				st = w.inheritState(hs, cst)
+				w.res.inherited = len(st.Done)
+			}
+		}
+	}
 	end := w.block(fn.Decl.Body.List, st)
 	if !end.Dead {
 		w.res.exits = append(w.res.exits, exitPoint{Node: fn.Decl.Body, State: end})
 	}
+	// calls executed on every returning path
+	first := true
+	var must []ast.Node
+	for _, ex := range w.res.exits {
+		if ex.Lit != nil || ex.State == nil || ex.State.Dead {
+			continue
+		}
+		own := ex.State.Done
+		if len(own) >= w.res.inherited {
+			own = own[w.res.inherited:]
+		}
+		if first {
+			must = append(must, own...)
+			first = false
+			continue
+		}
+		in := map[ast.Node]bool{}
+		for _, n := range own {
+			in[n] = true
+		}
+		var keep []ast.Node
+		for _, n := range must {
+			if in[n] {
+				keep = append(keep, n)
+			}
+		}
+		must = keep
+	}
+	w.res.mustDone = must
 	return w.res
 }
 
 // StateAt gives the state holding just before node n executes (n inside fn).
 func (p *Prog) StateAt(fn *Func, n ast.Node) *State {
 	r := p.Walk(fn)
-	return r.at[n]
+	if st, ok := r.at[n]; ok {
+		return st
+	}
+	// a node of an extracted-block helper of fn (callsInDeep)
+	if n != nil {
+		if owner := p.EnclosingFunc(n.Pos()); owner != nil && owner != fn {
+			return p.Walk(owner).at[n]
+		}
+	}
+	return nil
 }
 
 func (w *walker) record(n ast.Node, st *State) {
@@ -360,17 +422,26 @@ func (w *walker) stmt(s ast.Stmt, st *State) *State {
 				in = w.addFact(noMatch, eq, true)
 				noMatch = w.addFact(noMatch, eq, false)
 			} else {
-				// multiple expressions: disjunction, no single fact on entry; negations on exit
+				// multiple expressions: the disjunction holds on entry; negations on exit
 				in = noMatch
+				var or ast.Expr
 				for _, e := range cc.List {
 					w.expr(e, noMatch)
+					var alt ast.Expr = e
 					if x.Tag != nil {
 						eq := &ast.BinaryExpr{X: x.Tag, Op: token.EQL, Y: e, OpPos: cc.Pos()}
+						alt = eq
 						noMatch = w.addFact(noMatch, eq, false)
 					} else {
 						_, noMatch = w.cond(e, noMatch)
 					}
+					if or == nil {
+						or = alt
+					} else {
+						or = &ast.BinaryExpr{X: or, Op: token.LOR, Y: alt, OpPos: cc.Pos()}
+					}
 				}
+				in = w.addFact(in, or, true)
 			}
 			ends = append(ends, w.block(cc.Body, in))
 		}
@@ -911,6 +982,14 @@ func (w *walker) expr(e ast.Expr, st *State) *State {
 		w.record(e, st)
 		n := st.clone()
 		n.Done = append(n.Done, x)
+		// an extracted-block helper: what it executes on every path has executed here
+		if callee := w.p.Callee(x); callee != nil {
+			if cf := w.p.FuncOf[callee]; cf != nil {
+				if hs := w.p.HelperSite(cf); hs != nil && hs.Call == x {
+					n.Done = append(n.Done, w.p.Walk(cf).mustDone...)
+				}
+			}
+		}
 		return n
 	case *ast.SelectorExpr:
 		st = w.expr(x.X, st)
